@@ -207,7 +207,8 @@ fn ftrl<F: Float>(case: &Case, spec: &BuilderSpec, out: &mut Outcome) {
         |p| p.fit_with(None, &ds).map(|m| dbg(&m)).map_err(|e: FtrlError| dbg(&e)),
         |e| dbg(&e),
     )];
-    judge(case, spec, &base, &set, Some(&|p| p.clone()), &[], &|p| dbg(p), &|c| dbg(c), ops, out);
+    let rb_rng = setter(&base, |p, _c| p.rng(Xoshiro256Plus::seed_from_u64(42)));
+    judge(case, spec, &base, &set, Some(&|p| p.clone()), &[("rng", &rb_rng)], &|p| dbg(p), &|c| dbg(c), ops, out);
 }
 
 // ------------------------------------------------------------------------------------------
@@ -227,6 +228,7 @@ fn pls_params() -> Vec<Param> {
                 (Sym::Tiny, "just_inside", V, false),
                 (Sym::L(1e-6), "inside", V, false),
                 (Sym::L(1e10), "far_inside", V, false),
+                (Sym::Max, "max_finite", V, true),
             ],
         },
         count_ge1("max_iter", "linfa-pls/src/errors.rs:16 \"The maximal number of iterations should be positive\" (variant ZeroMaxIter)", 2, 500),
@@ -325,6 +327,7 @@ pub fn tsne_spec() -> BuilderSpec {
                     (Sym::Tiny, "just_inside", V, false),
                     (Sym::L(0.5), "inside", V, false),
                     (Sym::L(1e10), "far_inside", V, false),
+                    (Sym::Max, "max_finite", V, true),
                 ],
             },
             free("max_iter", "linfa-tsne/src/hyperparams.rs:123 no documented range", vec![(Sym::U(0), "zero"), (Sym::U(20), "small")]),
@@ -536,7 +539,8 @@ macro_rules! rp_builder {
                 |e| dbg(&e),
             )];
             // RandomProjectionParams implements neither Debug nor PartialEq: no snapshot of the unchecked builder
-            judge(case, spec, &base, &set, None, &[], &|_| String::new(), &|c| format!("target_dim={:?} eps={:?}", c.target_dim(), c.eps()), ops, out);
+            let rb_rng = setter(&base, |p, _c| p.with_rng(Xoshiro256Plus::seed_from_u64(42)));
+            judge(case, spec, &base, &set, None, &[("with_rng", &rb_rng)], &|_| String::new(), &|c| format!("target_dim={:?} eps={:?}", c.target_dim(), c.eps()), ops, out);
         }
     };
 }
@@ -580,6 +584,7 @@ pub fn platt_spec() -> BuilderSpec {
                     (Sym::Tiny, "just_inside", V, false),
                     (Sym::L(1e-10), "inside", V, false),
                     (Sym::L(10.0), "far_inside", V, false),
+                    (Sym::Max, "max_finite", V, true),
                 ],
             },
             loose0("sigma", "linfa/src/composing/platt_scaling.rs:146 \"sigma should be positive\" (sign test :115)", 1e-12, 1e10),
@@ -726,7 +731,8 @@ fn count_vectorizer(case: &Case, spec: &BuilderSpec, out: &mut Outcome) {
             |e| dbg(&e),
         ),
     ];
-    judge(case, spec, &base, &set, Some(&|p| p.clone()), &[], &|p| mask_regex_cache(dbg(p)), &|c| mask_regex_cache(dbg(c)), ops, out);
+    let rb_tok = setter(&base, |p, c| p.tokenizer(Tokenizer::Regex(c.s("split_regex").to_string())));
+    judge(case, spec, &base, &set, Some(&|p| p.clone()), &[("tokenizer", &rb_tok)], &|p| mask_regex_cache(dbg(p)), &|c| mask_regex_cache(dbg(c)), ops, out);
 }
 
 // ------------------------------------------------------------------------------------------
